@@ -59,8 +59,15 @@ func c10Symbols() []c10Sym {
 		{"near-exif", func(*mc.Exec) gen.Seg { return gen.SegNearExif() }},
 		{"near-xmp", func(*mc.Exec) gen.Seg { return gen.SegNearXMP() }},
 		{"com", func(*mc.Exec) gen.Seg { return gen.SegCOM() }},
-		{"dri", func(*mc.Exec) gen.Seg { return gen.SegDRI() }},
+		{"dri", func(x *mc.Exec) gen.Seg {
+			return gen.SegDRIInterval([]uint16{0x0010, 0x00FF, 0xFF00, 0xFFE1, 0xFFD8, 0xFFFF, 0xD9FF}[x.All("dri-interval", 7)])
+		}},
 		{"sof2", func(*mc.Exec) gen.Seg { return gen.SegSOF(0xC2) }},
+		{"tiny-ff-segment", func(x *mc.Exec) gen.Seg {
+			m := []byte{0xFE, 0xE0, 0xEC, 0xE1}[x.All("tiny-marker", 4)]
+			n := x.All("tiny-length", 4)
+			return gen.Seg{Marker: m, Payload: bytes.Repeat([]byte{0xFF}, n), Kind: "tiny"}
+		}},
 		{"app1-ff-run", func(*mc.Exec) gen.Seg { return gen.SegFFRun(0xE1) }},
 		{"app14-5000", func(*mc.Exec) gen.Seg { return gen.SegAPPn(14, 5000) }},
 		{"hostile-extreme-length", func(x *mc.Exec) gen.Seg {
@@ -425,7 +432,7 @@ func init() {
 			edge := mc.Space{Name: "buffer-edge-positions", H: c10Edge(fillers), NoLevels: true, Isolate: true, SplitDepth: 1,
 				Rule: fmt.Sprintf("[APP14 filler of length L][target][Exif][XMP] for %d filler lengths in 0..8300 (quick: every L that puts the target's marker within 80 bytes before or 8 after a multiple of 4096, and every 97th; thorough: all) x 8 targets (XMP, empty XMP, Exif, near-Exif, near-XMP, XMP extension, APP1 0xFF run, COM) x 4 callback pairs x 4 source deliveries (bytes.Reader; plain reader with chunks of 4096, 1000, 33): every look-ahead of the scanner is exercised at every distance from the end of its buffer", len(fillers))}
 			return []mc.Space{edge, {Name: "marker-sequences", H: c10Harness(n), NoLevels: true, Isolate: true, SplitDepth: 2,
-				Rule: fmt.Sprintf("every sequence of <= %d segments over a 18-symbol alphabet (JFIF, JFXX, Exif min/rich both byte orders, XMP with 7 packet lengths incl. 0, 4096+-1, 65502, XMP extension, ICC, Photoshop, 0xFF runs, nested SOI/EOI, near-Exif, near-XMP, COM, DRI, SOF2, 5000-byte APPn, ignored segments (APP2, COM, non-Exif APP1, APP13) of length 0xFFFF, 0xFFFE, 0xFFFD, 0x8000, 0x7FFF, 0x100, 0xFF filled with marker-looking structure) followed by DQT SOF0 DHT SOS entropy EOI x 6 Exif-callback behaviours x 7 XMP-callback behaviours; trivial = no metadata segment", n)}}
+				Rule: fmt.Sprintf("every sequence of <= %d segments over a 19-symbol alphabet (JFIF, JFXX, Exif min/rich both byte orders, XMP with 7 packet lengths incl. 0, 4096+-1, 65502, XMP extension, ICC, Photoshop, 0xFF runs, nested SOI/EOI, near-Exif, near-XMP, COM, DRI with 7 restart intervals incl. marker-looking ones, SOF2, COM/APP0/APP12/APP1 segments of 0-3 bytes of 0xFF, 5000-byte APPn, ignored segments (APP2, COM, non-Exif APP1, APP13) of length 0xFFFF, 0xFFFE, 0xFFFD, 0x8000, 0x7FFF, 0x100, 0xFF filled with marker-looking structure) followed by DQT SOF0 DHT SOS entropy EOI x 6 Exif-callback behaviours x 7 XMP-callback behaviours; trivial = no metadata segment", n)}}
 		},
 		Assumptions: []string{"expected callback arguments and payloads come from the generator's own segment table", "Exif callbacks consume exactly their declared length (the statement's premise); under-consuming Exif callbacks are not explored"},
 	})
